@@ -20,19 +20,47 @@ func c25RC4Discard(c *Ctx) {
 	if outer == nil {
 		return
 	}
-	if len(outer.AnonFuncs) != 1 || len(outer.AnonFuncs[0].FreeVars) < 1 {
-		c.undecided("C25.rc4-discard", "streamCipherMode closure", outer, "constructor closure not found")
-		return
-	}
-	f := outer.AnonFuncs[0]
+	// the closure that captures the first parameter (the amount to discard) —
+	// identified by the binding, not by the variable's name
+	var f *ssa.Function
 	var skipFV *ssa.FreeVar
-	for _, fv := range f.FreeVars {
-		if fv.Name() == "skip" {
-			skipFV = fv
+	nClosures := 0
+	if len(outer.Params) >= 1 {
+		skipParam := ssa.Value(outer.Params[0])
+		holdsSkip := func(v ssa.Value) bool {
+			if v == skipParam {
+				return true
+			}
+			al, ok := v.(*ssa.Alloc)
+			if !ok || al.Referrers() == nil {
+				return false
+			}
+			for _, r := range *al.Referrers() {
+				if st, ok := r.(*ssa.Store); ok && st.Addr == ssa.Value(al) && st.Val == skipParam {
+					return true
+				}
+			}
+			return false
 		}
+		allInstrs(outer, func(in ssa.Instruction) {
+			mc, ok := in.(*ssa.MakeClosure)
+			if !ok {
+				return
+			}
+			fn, _ := mc.Fn.(*ssa.Function)
+			if fn == nil {
+				return
+			}
+			for i, b := range mc.Bindings {
+				if i < len(fn.FreeVars) && holdsSkip(b) {
+					f, skipFV = fn, fn.FreeVars[i]
+					nClosures++
+				}
+			}
+		})
 	}
-	if skipFV == nil {
-		c.undecided("C25.rc4-discard", "streamCipherMode closure", f, "free variable skip not found")
+	if nClosures != 1 || f == nil || skipFV == nil {
+		c.undecided("C25.rc4-discard", "streamCipherMode closure", outer, "constructor closure capturing the discard amount not found")
 		return
 	}
 	bad := ""
